@@ -18,6 +18,23 @@ Definition dir_infos (h : heap) (ch : list (str * nat)) : list finfo :=
     (flat_map (fun '(name, c) => match get h c with Some n => [fill_stat n name] | None => [] end) ch).
 Definition dir_names (ch : list (str * nat)) : list str := sort_by (fun x => x) (map fst ch).
 
+(* ---- the cursor of a directory handle ------------------------------------- *)
+(* A read of n entries at position ix of the listing l: the batch and the new position; None = io.EOF.
+   n <= 0: all the remaining entries (possibly none), never io.EOF. *)
+Definition dir_batch {A} (n : Z) (l : list A) (ix : nat) : option (list A * nat) :=
+  if Z.ltb 0 n && Nat.leb (length l) ix then None
+  else
+    let e := if Z.leb n 0 then length l else Nat.min (ix + Z.to_nat n) (length l) in
+    Some (firstn (e - ix) (skipn ix l), e).
+
+(* a read of everything from the start delivers the listing *)
+Lemma dir_batch_all {A} (n : Z) (l : list A) : Z.leb n 0 = true -> dir_batch n l 0 = Some (l, length l).
+Proof.
+  intros Hn. unfold dir_batch. rewrite Hn.
+  replace (Z.ltb 0 n) with false by (symmetry; apply Z.ltb_ge; now apply Z.leb_le).
+  cbn [andb]. rewrite Nat.sub_0_r. cbn [skipn]. now rewrite firstn_all.
+Qed.
+
 (* ---- handle methods ------------------------------------------------------ *)
 Section FileOps.
   Variable s : fsys.
@@ -146,7 +163,13 @@ Section FileOps.
         | None => (f, RFail closed_err)
         | Some c =>
             match file_of c with
-            | None => (f, RInt 0)
+            | None =>
+                (* a directory: Seek(0, io.SeekStart) rewinds (drops the listing), any other Seek does nothing *)
+                if Z.eqb offset 0 && Z.eqb whence 0
+                then ({| hd_node := hd_node f; hd_view := hd_view f; hd_name := hd_name f; hd_at := hd_at f;
+                         hd_mode := hd_mode f; hd_dir_infos := None; hd_dir_names := hd_dir_names f;
+                         hd_dir_index := 0 |}, RInt 0)
+                else (f, RInt 0)
             | Some (d, _, _, _) =>
                 let size := Z.of_nat (length d) in
                 let target := if Z.eqb whence 0 then Some offset
@@ -256,8 +279,9 @@ Section FileOps.
 
   Definition none_if_empty {A} (l : list A) : option (list A) := match l with [] => None | _ => Some l end.
 
-  (* ReadDir(n), memfs_file.go:297 *)
-  Definition f_read_dir (n : Z) : handle * res :=
+  (* ReadDir(n) and Readdirnames(n): ONE cursor (hd_dir_index) over ONE listing (hd_dir_infos) taken by the first
+     read after the handle was opened or rewound; hd_dir_names is no longer used *)
+  Definition dir_read (n : Z) (ret : list finfo -> option ekind -> res) : handle * res :=
     match hd_name f with
     | [] => (f, RFail EG_Invalid)
     | _ =>
@@ -266,53 +290,23 @@ Section FileOps.
         | Some c =>
             match get h c with
             | Some (NDir ch _) =>
-                let upd_h infos ix :=
+                let upd_h l ix :=
                   {| hd_node := hd_node f; hd_view := hd_view f; hd_name := hd_name f; hd_at := hd_at f;
-                     hd_mode := hd_mode f; hd_dir_infos := infos; hd_dir_names := hd_dir_names f;
+                     hd_mode := hd_mode f; hd_dir_infos := Some l; hd_dir_names := hd_dir_names f;
                      hd_dir_index := ix |} in
-                let fresh := Z.leb n 0 || match hd_dir_infos f with None => true | Some _ => false end in
-                if fresh && Z.leb n 0 then (upd_h None 0, RInfos (dir_infos h ch) None)
-                else
-                  let cache := if fresh then none_if_empty (dir_infos h ch) else hd_dir_infos f in
-                  let ix := if fresh then 0 else hd_dir_index f in
-                  let l := match cache with Some l => l | None => [] end in
-                  if Nat.leb (length l) ix then (upd_h None 0, RInfos [] (Some EG_EOF))
-                  else
-                    let e := Nat.min (ix + Z.to_nat n) (length l) in
-                    (upd_h cache e, RInfos (firstn (e - ix) (skipn ix l)) None)
+                let l := match hd_dir_infos f with Some l => l | None => dir_infos h ch end in
+                let ix := match hd_dir_infos f with Some _ => hd_dir_index f | None => 0%nat end in
+                match dir_batch n l ix with
+                | None => (upd_h l ix, ret [] (Some EG_EOF))
+                | Some (b, e) => (upd_h l e, ret b None)
+                end
             | _ => (f, RFail ENotADirectory)
             end
         end
     end.
 
-  (* Readdirnames(n), memfs_file.go:374 : own cache, shared index *)
-  Definition f_readdirnames (n : Z) : handle * res :=
-    match hd_name f with
-    | [] => (f, RFail EG_Invalid)
-    | _ =>
-        match hd_node f with
-        | None => (f, RFail (if isw then EW_InvalidHandle else EG_FileClosing))
-        | Some c =>
-            match get h c with
-            | Some (NDir ch _) =>
-                let upd_h names ix :=
-                  {| hd_node := hd_node f; hd_view := hd_view f; hd_name := hd_name f; hd_at := hd_at f;
-                     hd_mode := hd_mode f; hd_dir_infos := hd_dir_infos f; hd_dir_names := names;
-                     hd_dir_index := ix |} in
-                let fresh := Z.leb n 0 || match hd_dir_names f with None => true | Some _ => false end in
-                if fresh && Z.leb n 0 then (upd_h None 0, RNames (dir_names ch) None)
-                else
-                  let cache := if fresh then none_if_empty (dir_names ch) else hd_dir_names f in
-                  let ix := if fresh then 0 else hd_dir_index f in
-                  let l := match cache with Some l => l | None => [] end in
-                  if Nat.leb (length l) ix then (upd_h None 0, RNames [] (Some EG_EOF))
-                  else
-                    let e := Nat.min (ix + Z.to_nat n) (length l) in
-                    (upd_h cache e, RNames (firstn (e - ix) (skipn ix l)) None)
-            | _ => (f, RFail ENotADirectory)
-            end
-        end
-    end.
+  Definition f_read_dir (n : Z) : handle * res := dir_read n (fun l e => RInfos l e).
+  Definition f_readdirnames (n : Z) : handle * res := dir_read n (fun l e => RNames (map (@fi_name) l) e).
 End FileOps.
 
 (* ---- composites of vfs.go over OpenFile ---------------------------------- *)
